@@ -712,4 +712,157 @@ theorem frame_history_any (s : TdfSt) (ops : List Op) (hops : ∀ op ∈ ops, Ta
     obtain ⟨x2, hx2, hm2⟩ := ih (step s op).1 (fun o ho => hops o (by simp [ho])) x1 hx1 h10 h1t
     exact ⟨x2, hx2, hm2.trans hm1⟩
 
+/-! ### at most one block per type, on ANY table -/
+
+def TypesNodup (es : List Entry) : Prop := ((liveOf es).map (·.typ)).Nodup
+
+theorem liveOf_append (a b : List Entry) : liveOf (a ++ b) = liveOf a ++ liveOf b := by simp [liveOf, List.filter_append]
+
+theorem remove_keeps_typesNodup (s : TdfSt) (t : Nat) (now : Int) (h : TypesNodup s.entries) :
+    TypesNodup (removeBlock s t now).1.entries := by
+  cases hfind : findType t s.entries with
+  | none =>
+    have : (removeBlock s t now).1 = s := by unfold removeBlock; simp [hfind]
+    rw [this]; exact h
+  | some pos =>
+    rw [removeBlock_entries s t now pos hfind]
+    obtain ⟨e, _, _, h3⟩ := findIdxBy_some _ _ _ hfind
+    unfold TypesNodup at h ⊢
+    rw [h3] at h
+    have hfresh : ∀ (l : List Entry) (f : Entry), f.typ = 0 → liveOf (l ++ [f]) = liveOf l := by
+      intro l f hf; simp [liveOf, List.filter_append, hf]
+    rw [hfresh _ _ rfl, liveOf_map_shift, List.map_map]
+    have hcomp : ((fun x : Entry => x.typ) ∘ shiftAfter (s.entries.getD pos unusedEntry)) = (fun x : Entry => x.typ) := by
+      funext x; simp
+    rw [hcomp]
+    rw [liveOf_append] at h ⊢
+    have hsub : (liveOf (s.entries.take pos) ++ liveOf (s.entries.drop (pos + 1))).Sublist
+        (liveOf (s.entries.take pos) ++ liveOf (e :: s.entries.drop (pos + 1))) := by
+      apply List.Sublist.append (List.Sublist.refl _)
+      unfold liveOf
+      exact List.Sublist.filter _ (List.sublist_cons_self _ _)
+    exact (List.Sublist.map _ hsub).nodup h
+
+theorem add_keeps_typesNodup (s : TdfSt) (b : BlkArg) (c : Str) (now : Int) (h : TypesNodup s.entries) :
+    TypesNodup (addBlock s b c now).1.entries := by
+  by_cases hd : hasType b.typ s.entries = true
+  · have : (addBlock s b c now).1 = s := by unfold addBlock; simp [hd]
+    rw [this]; exact h
+  · have hd' : hasType b.typ s.entries = false := by simpa using hd
+    cases hf : firstUnused s.entries with
+    | none =>
+      have : (addBlock s b c now).1 = s := by unfold addBlock; simp [hd', hf]
+      rw [this]; exact h
+    | some pos =>
+      cases hchk : checkArg b c now with
+      | error e =>
+        have : (addBlock s b c now).1 = s := by unfold addBlock; simp [hd', hf, hchk]
+        rw [this]; exact h
+      | ok pl =>
+        by_cases hh : (s.entries.drop (pos + 1)).any (fun e => e.typ != 0) = true
+        · have : (addBlock s b c now).1 = s := by unfold addBlock; simp [hd', hf, hchk, hh]
+          rw [this]; exact h
+        · have hh' : (s.entries.drop (pos + 1)).any (fun e => e.typ != 0) = false := by simpa using hh
+          rw [addBlock_entries s b c now pos pl hd' hf hchk hh']
+          obtain ⟨slot, _, h2, h3⟩ := findIdxBy_some _ _ _ hf
+          have hslot : slot.typ = 0 := by simpa using h2
+          have hpost : ∀ e ∈ s.entries.drop (pos + 1), e.typ = 0 := by
+            intro e he
+            have := List.any_eq_false.mp hh' e he
+            simpa using this
+          unfold TypesNodup at h ⊢
+          rw [h3] at h
+          have hlp : liveOf (s.entries.drop (pos + 1)) = [] := by
+            apply List.filter_eq_nil_iff.mpr
+            intro e he; simp [hpost e he]
+          have hlp' : liveOf ((s.entries.drop (pos + 1)).map (fun x => { x with off := (s.entries.getD pos unusedEntry).off + b.size })) = [] := by
+            apply List.filter_eq_nil_iff.mpr
+            intro e he
+            obtain ⟨x, hx, rfl⟩ := List.mem_map.mp he
+            simp [hpost x hx]
+          have hold : liveOf (s.entries.take pos ++ slot :: s.entries.drop (pos + 1)) = liveOf (s.entries.take pos) := by
+            rw [liveOf_append]
+            have : liveOf (slot :: s.entries.drop (pos + 1)) = [] := by
+              simp only [liveOf, List.filter_cons, hslot] at hlp ⊢
+              simpa using hlp
+            rw [this, List.append_nil]
+          rw [hold] at h
+          by_cases hb0 : b.typ = 0
+          · -- a block of type 0 is an unused slot for every reader: nothing live is added
+            have : liveOf (s.entries.take pos ++ (⟨b.typ, b.fmt, (s.entries.getD pos unusedEntry).off, b.size, b.cdate, b.mdate, now, c⟩ : Entry)
+                  :: (s.entries.drop (pos + 1)).map (fun x => { x with off := (s.entries.getD pos unusedEntry).off + b.size }))
+                = liveOf (s.entries.take pos) := by
+              rw [liveOf_append]
+              have : liveOf ((⟨b.typ, b.fmt, (s.entries.getD pos unusedEntry).off, b.size, b.cdate, b.mdate, now, c⟩ : Entry)
+                  :: (s.entries.drop (pos + 1)).map (fun x => { x with off := (s.entries.getD pos unusedEntry).off + b.size })) = [] := by
+                simp only [liveOf, List.filter_cons, hb0] at hlp' ⊢
+                simpa using hlp'
+              rw [this, List.append_nil]
+            rw [this]; exact h
+          · have hnew : liveOf (s.entries.take pos ++ (⟨b.typ, b.fmt, (s.entries.getD pos unusedEntry).off, b.size, b.cdate, b.mdate, now, c⟩ : Entry)
+                  :: (s.entries.drop (pos + 1)).map (fun x => { x with off := (s.entries.getD pos unusedEntry).off + b.size }))
+                = liveOf (s.entries.take pos) ++ [⟨b.typ, b.fmt, (s.entries.getD pos unusedEntry).off, b.size, b.cdate, b.mdate, now, c⟩] := by
+              rw [liveOf_append]
+              have : liveOf ((⟨b.typ, b.fmt, (s.entries.getD pos unusedEntry).off, b.size, b.cdate, b.mdate, now, c⟩ : Entry)
+                  :: (s.entries.drop (pos + 1)).map (fun x => { x with off := (s.entries.getD pos unusedEntry).off + b.size }))
+                  = [⟨b.typ, b.fmt, (s.entries.getD pos unusedEntry).off, b.size, b.cdate, b.mdate, now, c⟩] := by
+                simp only [liveOf, List.filter_cons, hb0] at hlp' ⊢
+                simp [hb0]
+                simpa using hlp'
+              rw [this]
+            rw [hnew, List.map_append, List.nodup_append]
+            refine ⟨h, by simp, ?_⟩
+            intro a ha a' ha'
+            simp at ha'
+            subst ha'
+            intro heq
+            obtain ⟨y, hy, hyt⟩ := List.mem_map.mp ha
+            have hyin : y ∈ s.entries := by
+              have : y ∈ s.entries.take pos := (List.mem_filter.mp hy).1
+              exact List.mem_of_mem_take this
+            have : hasType b.typ s.entries = true := by
+              unfold hasType
+              exact List.any_eq_true.mpr ⟨y, hyin, by simp [hyt, heq]⟩
+            rw [hd'] at this; cases this
+
+theorem step_keeps_typesNodup (s : TdfSt) (op : Op) (hop : TableOp op) (h : TypesNodup s.entries) : TypesNodup (step s op).1.entries := by
+  have hrepl : ∀ (b : BlkArg) (c : Option Str) (now : Int), TypesNodup (replaceBlock s b c now).1.entries := by
+    intro b c now
+    unfold replaceBlock
+    cases hfind : s.entries.find? (fun e => e.typ == b.typ) with
+    | none => exact h
+    | some old =>
+      simp only
+      cases hchk : checkArg b (c.getD old.comment) now with
+      | error e => exact h
+      | ok pl =>
+        simp only
+        split
+        · exact h
+        · have h1 := remove_keeps_typesNodup s b.typ now h
+          cases hr : removeBlock s b.typ now with
+          | mk s1 o =>
+            rw [hr] at h1
+            cases o with
+            | ok => exact add_keeps_typesNodup s1 b (c.getD old.comment) now h1
+            | err e => exact h1
+  cases op with
+  | add b c now => exact add_keeps_typesNodup s b c now h
+  | remove t now => exact remove_keeps_typesNodup s t now h
+  | replace b c now => exact hrepl b c now
+  | set b now =>
+    show TypesNodup (setBlock s b now).1.entries
+    unfold setBlock
+    split
+    · exact hrepl b none now
+    · exact add_keeps_typesNodup s b defaultComment now h
+  | reopen => exact absurd hop (by simp [TableOp])
+
+theorem history_keeps_typesNodup (s : TdfSt) (ops : List Op) (hops : ∀ op ∈ ops, TableOp op) (h : TypesNodup s.entries) :
+    TypesNodup (runOps s ops).entries := by
+  induction ops generalizing s with
+  | nil => exact h
+  | cons op ops ih =>
+    exact ih (step s op).1 (fun o ho => hops o (by simp [ho])) (step_keeps_typesNodup s op (hops op (by simp)) h)
+
 end Tdf
